@@ -19,7 +19,11 @@ import time
 
 VERIF = os.path.dirname(os.path.dirname(os.path.abspath(__file__)))
 STUBS = os.path.join(VERIF, "stubs")
-WORK = os.path.join(VERIF, ".work")
+# VERIF_OUT redirects everything a run writes (work files, evidence, replays) - used only when the
+# checks are pointed at a scratch worktree (VERIF_REPO) to evaluate a seeded change without touching
+# /repo or the committed evidence; the registered commands never set it.
+OUT = os.environ.get("VERIF_OUT", VERIF)
+WORK = os.path.join(OUT, ".work")
 
 # --conversion-check is deliberately off: it reports well-defined signed->unsigned and
 # implementation-defined narrowing conversions, which are not undefined behaviour in C++.
